@@ -350,6 +350,25 @@ impl<P: SimPrefix> World<P> {
             }
             Step::Serde { m, k0, k1 } => {
                 let i = self.mi(*m);
+                // several hasher keys per visited state: every key is one simulated "process"
+                for extra in 1..4u64 {
+                    prefix_trie::verif_hooks::set_hash_keys(k0.wrapping_add(extra.wrapping_mul(0x9E37_79B9_7F4A_7C15)), k1 ^ extra);
+                    if let Some(r) = ctx.mutate("serde", || P::serde_map(&self.maps[i].real))? {
+                        ctx.stats.hit("fault.hash-key round trips");
+                        match r {
+                            Err(e) => {
+                                chk!(ctx, "C19", false, "serde:error", "serde round trip failed: {e}");
+                            }
+                            Ok(new) => {
+                                let tn = truth_of(&new.verif_snapshot());
+                                chk!(ctx, "C19", tn.ents == self.truths[i].ents, "serde:contents", "deserialize(serialize(m)) has {:?}, original {:?} (hash keys #{extra} derived from {k0:#x},{k1:#x})", tn.ents, self.truths[i].ents);
+                                let eq = ctx.obs("C19", "eq", || new == self.maps[i].real && self.maps[i].real == new)?;
+                                chk!(ctx, "C19", eq, "serde:eq", "deserialize(serialize(m)) != m for {:?}", tn.ents);
+                                ctx.mutate("drop", move || drop(new))?;
+                            }
+                        }
+                    }
+                }
                 prefix_trie::verif_hooks::set_hash_keys(*k0, *k1);
                 let r = ctx.mutate("serde", || P::serde_map(&self.maps[i].real))?;
                 if let Some(r) = r {
